@@ -931,6 +931,15 @@ impl<'a> Gen<'a> {
             ("index:string", "\"abc\"[7];"),
             ("type:not", "(!5);"),
             ("type:index-set", "stel nl = [1]; nl[ja] = 2;"),
+            ("argument:arity", "type(1, [2.5, \"x\"]);"),
+            ("argument:arity0", "lengte();"),
+            ("argument:string-of-array", "string([1, \"a\", 2.5]);"),
+            ("argument:float-of-array", "float([\"q\"]);"),
+            ("type:call-string", "stel nietf = \"tekst\"; nietf([1.5], \"arg\");"),
+            ("type:index-float", "[\"a\", 2.5][1.5];"),
+            ("type:cmp", "(\"a\" < 1.5);"),
+            ("type:negate", "(-\"abc\");"),
+            ("index:assign", "stel nl = [1.5, \"b\"]; nl[2] = [nl];"),
             ("compile:reference", "onbekend;"),
             ("compile:break", "stop;"),
         ];
@@ -956,8 +965,7 @@ impl<'a> Gen<'a> {
         kinds[i]
             .1
             .replace("nietf", &format!("nietf{}", self.stmt_counter))
-            .replace("nl[", &format!("nl{}[", self.stmt_counter))
-            .replace("stel nl ", &format!("stel nl{} ", self.stmt_counter))
+            .replace("nl", &format!("nl{}", self.stmt_counter))
     }
 
     pub fn stmt(&mut self, depth: usize) -> String {
@@ -1125,9 +1133,11 @@ impl<'a> Gen<'a> {
                 args.push(self.expr(&t, d.saturating_sub(1)));
             }
         }
-        let fmt = match n {
-            0 => "\"regel\"".to_string(),
-            1 => "\"a={}\"".to_string(),
+        let fmt = match (n, self.rng.below(6)) {
+            (0, _) => "\"regel\"".to_string(),
+            (_, 0) => "\"{} {} {} te veel\"".to_string(),
+            (_, 1) => "\"geen plaats\"".to_string(),
+            (1, _) => "\"a={}\"".to_string(),
             _ => "\"{} en {}\"".to_string(),
         };
         if args.is_empty() {
